@@ -155,10 +155,21 @@ def generate(run_seed, tier):
             ops.append(['get_cia', o.choice(pairs), o.random()])
         elif r < 0.95:
             ops.append(['clear_cia'])
+            if o.random() < 0.5:
+                # a CIA object built by the caller from a container of either
+                # directory, handed to the cache (add_cia, or load_cia with
+                # one object or a list)
+                ops.append(['add_cia_obj', o.choice(pairs), o.randrange(2),
+                            o.choice(['add', 'load_single', 'load_list'])])
         elif r < 0.97:
             ops.append(['set_kt_path', o.randrange(2)])
         else:
             ops.append(['get_kt', o.choice(kmols), o.random(), o.random()])
+            if o.random() < 0.15:
+                # a molecule no k-table of the store describes
+                ops.append(['get_kt', o.choice([m for m in allm
+                                                if m not in kmols] or ['XeF6']),
+                            o.random(), o.random()])
         if o.random() < 0.06:
             ops.append([o.choice(['list_mols', 'list_mols', 'list_kt',
                                   'load_list'])] +
@@ -774,6 +785,45 @@ def execute(case, keep_text=False):
                 elif k == 'clear_cia':
                     CIACache().cia_dict = {}
                     ref['cia_served'] = {}
+                elif k == 'add_cia_obj':
+                    from taurex.cia import PickleCIA, HitranCIA
+                    pair = op[1]
+                    rec = [f for f in cfg['cia_dirs'][op[2] % 2]
+                           if f['pair'] == pair][0]
+                    path = os.path.join(cia_paths[op[2] % 2], rec['file'])
+                    try:
+                        obj = PickleCIA(path, pair) if rec['fmt'] == 'db' \
+                            else HitranCIA(path)
+                    except Exception:
+                        continue     # container damaged by a storage event
+                    in_cache = CIACache().cia_dict.get(pair)
+                    try:
+                        if op[3] == 'add':
+                            CIACache().add_cia(obj)
+                        elif op[3] == 'load_single':
+                            CIACache().load_cia(cia_xsec=obj, cia_path=[])
+                        else:
+                            CIACache().load_cia(cia_xsec=[obj], cia_path=[])
+                        err = None
+                    except Exception as e:    # noqa
+                        err = e
+                    now = CIACache().cia_dict.get(pair)
+                    out.bump('probes', 'cia_object_handed_over')
+                    if in_cache is not None:
+                        # the pair is in the cache already: the object in
+                        # the cache stays (the call may refuse)
+                        if now is not in_cache:
+                            viol('not-loaded-once', 'cia:add', '%s: the '
+                                 'object held by the cache was replaced by '
+                                 '%s (%r)' % (pair, op[3], err), step)
+                            raise Stop()
+                    else:
+                        if now is not obj:
+                            viol('load-failed', 'cia:add', '%s handed over '
+                                 'through %s is not what the cache holds '
+                                 '(%r)' % (pair, op[3], err), step)
+                            raise Stop()
+                        ref['cia_served'][pair] = obj
                 elif k == 'get_cia':
                     pair = op[1]
                     served = ref['cia_served'].get(pair)
@@ -853,7 +903,11 @@ def execute(case, keep_text=False):
                             raise Stop()
                     out.bump('steps', 'cia_probes')
                 elif k == 'set_kt_path':
-                    GlobalCache()['ktable_path'] = kt_paths[op[1] % 2]
+                    if step % 2:
+                        # through the cache's own setter
+                        KTableCache().set_ktable_path(kt_paths[op[1] % 2])
+                    else:
+                        GlobalCache()['ktable_path'] = kt_paths[op[1] % 2]
                     KTableCache().clear_cache()
                     ref['kt_path'] = op[1] % 2
                     ref['kt_served'] = {}
@@ -869,6 +923,14 @@ def execute(case, keep_text=False):
                         obj, err = None, e
                     rec = [f for f in cfg['kt_dirs'][ref['kt_path']]
                            if f['mol'] == mol]
+                    if not rec:
+                        out.bump('probes', 'missing_ktable_requested')
+                        if obj is not None:
+                            viol('phantom-load', 'ktable', '%s served although '
+                                 'no k-table of the configured path describes '
+                                 'it' % mol, step)
+                            raise Stop()
+                        continue
                     if obj is None:
                         viol('load-failed', 'ktable:' + rec[0]['fmt'],
                              '%s (%s): %r' % (mol, rec[0]['file'], err), step)
